@@ -281,11 +281,16 @@ def check_law(rec, inp):
     np.random.seed(int(inp["np_seed"]))
     n = int(inp["ndraw"])
     cols = {}
-    for k in range(n):
-        d = dict(lens.draw_lens(**kw_lens))
-        d.update(ani.draw_anisotropy(**kw_kin))
-        for p in inp["params"]:
-            cols.setdefault(p, []).append(d[p])
+    try:
+        for k in range(n):
+            d = dict(lens.draw_lens(**kw_lens))
+            d.update(ani.draw_anisotropy(**kw_kin))
+            for p in inp["params"]:
+                cols.setdefault(p, []).append(d[p])
+    except Exception as e:
+        rec.check(False, "C09:law:raised:" + type(e).__name__, "drawing with in-range means raised", inp,
+                  "%s: %s" % (type(e).__name__, str(e)[:80]), "draws")
+        return
     prop = cfg.get("lambda_scaling_property", 0)
     for p in inp["params"]:
         x = np.array(cols[p], dtype=float)
@@ -687,7 +692,7 @@ def run(rec, args):
     ind_opts = [None, ("PDF", dict(bin_edges=edges, pdf_array=pdfv)), ("GEV", dict(xi=0.1, mean=0.01, sigma=0.04))]
     for glob in [False, 0, 1]:
         for ind in ind_opts:
-            for sig in [0, 0.0, 0.07, 1e-300]:
+            for sig in [0, 0.0, 0.07, 1e-3]:
                 for law in ["GAUSSIAN", "GEV"]:
                     other = "GEV" if law == "GAUSSIAN" else "GAUSSIAN"
                     dl = [other, law] if glob == 1 else [law, other]
